@@ -247,6 +247,34 @@ def small_digit_strings():
                  call=lambda target, ns: roundtrip(ns["s"], 0))
     for nm, (chk, skip, fails) in (("encode-str", c1), ("encode-int", c2), ("decode", c3), ("roundtrip", c4)):
         out.append((nm, not fails and chk > 0, {"checked": chk, "outside_precondition": skip, "failing": fails}))
+    # MSISDN / STN-SR AVPs built from a number (int or decimal text) carry exactly the reference TBCD encoding:
+    # nibble-swapped pairs, an 'f' filler only for odd lengths -- written here from the 3GPP definition
+    from bromelia.avps.etsi_3gpp.ts_129_329 import MsisdnAVP
+    from bromelia.avps.etsi_3gpp.ts_129_272 import StnSrAVP
+
+    def ref_tbcd(digits):
+        d = digits + ("f" if len(digits) % 2 else "")
+        return bytes.fromhex("".join(d[i + 1] + d[i] for i in range(0, len(d), 2)))
+    bad, chk = [], 0
+    for s_ in _digit_strings(n):
+        if not s_ or s_[0] == "0":
+            continue                      # a NUMBER: no leading zeros (the int form cannot carry them)
+        for cls in (MsisdnAVP, StnSrAVP):
+            for arg in (int(s_), s_):
+                chk += 1
+                try:
+                    a = cls(arg)
+                    got = a.data
+                    want = ref_tbcd(s_)
+                    wire = a.dump()
+                    ok = got == want and wire[8 + (4 if a.vendor_id else 0):][:len(want)] == want \
+                        and a.get_length() == 8 + (4 if a.vendor_id else 0) + len(want)
+                except BaseException as e:  # noqa
+                    ok, got = False, "raised %s" % type(e).__name__
+                if not ok and len(bad) < 6:
+                    bad.append({"class": cls.__name__, "number": repr(arg),
+                                "data": got.hex() if isinstance(got, bytes) else got, "want": ref_tbcd(s_).hex()})
+    out.append(("msisdn-and-stn-sr-avps-carry-the-tbcd-encoding", not bad and chk > 0, {"checked": chk, "failing": bad}))
     return out
 
 
